@@ -377,8 +377,9 @@ pub fn ddmin(mut bytes: Vec<u8>, fails: &dyn Fn(&[u8]) -> bool) -> Vec<u8> {
     }
 }
 
-/// How many preceding cases of a runner thread are kept for the history confirmation.
-const HISTORY_DEPTH: usize = 6;
+/// How many preceding cases of a runner thread are kept for the history confirmation
+/// (state that builds up slowly -- a counter that leaks, a table that fills -- needs a long run-up).
+const HISTORY_DEPTH: usize = 4096;
 
 /// Run `seq` (byte-vector cases) one after the other on a fresh thread; the outcome of the last one.
 fn run_sequence_fresh(f: fn(&mut Src, &mut Stats, &Env) -> CaseResult, env: &Env, seq: &[Vec<u8>]) -> Result<CaseResult, String> {
@@ -414,9 +415,39 @@ fn confirm_with_history(f: fn(&mut Src, &mut Stats, &Env) -> CaseResult, sub_nam
     if before.is_empty() {
         return None;
     }
-    let mut seq: Vec<Vec<u8>> = before.to_vec();
-    seq.push(last.to_vec());
-    fails(&seq)?;
+    // the shortest of a few suffix lengths of the history after which the case fails again
+    let mut seq: Vec<Vec<u8>> = vec![];
+    let mut found = false;
+    for k in [6usize, 64, 512, HISTORY_DEPTH] {
+        let k = k.min(before.len());
+        seq = before[before.len() - k..].to_vec();
+        seq.push(last.to_vec());
+        if fails(&seq).is_some() {
+            found = true;
+            break;
+        }
+        if k == before.len() {
+            break;
+        }
+    }
+    if !found {
+        return None;
+    }
+    // a long run-up: halve it from the front while the failure stays
+    while seq.len() > 17 {
+        let cut = (seq.len() - 1) / 2;
+        let shorter: Vec<Vec<u8>> = seq[cut..].to_vec();
+        if fails(&shorter).is_some() {
+            seq = shorter;
+        } else {
+            break;
+        }
+    }
+    if seq.len() > 17 {
+        // too long to minimise member by member within the budget: the sequence is the replay
+        let fl = fails(&seq)?;
+        return Some((seq, fl));
+    }
     // (must not fail alone on a fresh thread either: otherwise it is an ordinary failure)
     let deadline = Instant::now() + std::time::Duration::from_secs(SHRINK_BUDGET_S);
     // drop predecessors, oldest first
@@ -599,8 +630,10 @@ fn run_bytes_sub(env: &Arc<Env>, sub: &BytesSub) -> SubOutcome {
                         // Re-run the minimal input to obtain the details.
                         let mut scratch = Stats::new();
                         let strict_env = Env { property: env.property, tier: env.tier, seed: env.seed, known: env.known.clone(), strict: false };
-                        let mut src = Src::new(&bytes);
-                        let r = catch(std::panic::AssertUnwindSafe(|| f(&mut src, &mut scratch, &strict_env)));
+                        // (on a fresh thread: the runner thread may carry state that earlier cases left in
+                        // the library, and a replay file must reproduce from a fresh process)
+                        let _ = (&mut scratch, &strict_env);
+                        let r = run_sequence_fresh(f, &strict_env, &[bytes.clone()]);
                         let fail = match r {
                             Ok(Err(fl)) => fl,
                             Ok(Ok(())) => {
